@@ -453,7 +453,7 @@ func (ex *Exec) appendOp(st *State, fr *Frame, x *ssa.Call, args []Val) Val {
 		n := int(e.Len.Val.Int64())
 		cur := s
 		for i := 0; i < n; i++ {
-			el := Select(st.Mem[e.Region], ex.idxAdd(e.Off, ex.idxConst(int64(i))))
+			el := ex.regionLoad(st, e.Region, ex.idxAdd(e.Off, ex.idxConst(int64(i))), nil)
 			cur = ex.append1(st, cur, el)
 		}
 		return cur
@@ -462,15 +462,20 @@ func (ex *Exec) appendOp(st *State, fr *Frame, x *ssa.Call, args []Val) Val {
 	return nil
 }
 
-func (ex *Exec) append1(st *State, s SliceV, el *Term) SliceV {
-	var base *Term
-	if s.Region == nil {
-		base = ex.zeroArray(s.Elem)
-	} else {
-		base = st.Mem[s.Region]
-	}
+func (ex *Exec) append1(st *State, s SliceV, el Val) SliceV {
 	r := ex.newRegion("append", s.Elem, -1)
-	st.Mem[r] = ex.def("mem", Store(base, ex.idxAdd(s.Off, s.Len), el))
+	// contents of the new backing array: the old contents (a copy) plus the new element
+	if s.Region == nil {
+		ex.setRegionMem(st, r, func(t types.Type, suf string) *Term { return ex.zeroArray(t) })
+	} else if len(r.Sub) > 0 && len(s.Region.Sub) == len(r.Sub) {
+		for i := range r.Sub {
+			st.Mem[r.Sub[i]] = st.Mem[s.Region.Sub[i]]
+		}
+		st.Mem[r] = st.Mem[s.Region]
+	} else {
+		st.Mem[r] = st.Mem[s.Region]
+	}
+	ex.regionStore(st, r, ex.idxAdd(s.Off, s.Len), nil, el)
 	nl := ex.def("len", ex.idxAdd(s.Len, ex.idxConst(1)))
 	nc := ex.fresh("cap", ex.idxSort())
 	st.assume(And(ex.le(nl, nc), ex.le(nc, ex.maxLen())))
